@@ -39,6 +39,7 @@ pub struct SymbolMap {
 
     name_to_class: HashMap<EcoString, RecordId>,
     name_to_def: HashMap<EcoString, RecordId>,
+    name_to_defset: HashMap<EcoString, DefsetId>,
     name_to_multiclass: HashMap<EcoString, MulticlassId>,
     file_to_symbol_list: HashMap<FileId, Vec<SymbolId>>,
     pos_to_symbol_map: HashMap<FileId, IntervalMap<TextSize, SymbolId>>,
@@ -70,6 +71,10 @@ impl SymbolMap {
 
     pub fn iter_def(&self) -> impl Iterator<Item = RecordId> + '_ {
         self.name_to_def.values().copied()
+    }
+
+    pub fn find_defset(&self, name: &EcoString) -> Option<DefsetId> {
+        self.name_to_defset.get(name).copied()
     }
 
     pub fn template_arg(&self, template_arg_id: TemplateArgumentId) -> &TemplateArgument {
@@ -280,6 +285,11 @@ impl SymbolMap {
             .push(id.into());
         self.add_to_pos_to_symbol_map(define_loc, id);
         id
+    }
+
+    /// Makes a (completed) defset known under its name, so that later values can refer to it.
+    pub fn declare_defset(&mut self, name: EcoString, defset_id: DefsetId) {
+        self.name_to_defset.insert(name, defset_id);
     }
 
     pub fn add_multiclass(&mut self, multiclass: Multiclass) -> MulticlassId {
